@@ -67,6 +67,8 @@ impl Case for C12Case {
     fn execute(&self) -> Verdict {
         let mut v = Verdict::default();
         let mut w = World::booted(sched(self.sched_variant), self.entropy, false);
+        // in a quarter of the cases every Ctrl-C reaches the runtime twice before the next slice
+        w.double_intr = self.entropy % 4 == 1;
         enter_program(&mut w, &self.p1);
         let mut reply_pos = 0usize;
         for h in &self.prefix {
